@@ -24,7 +24,7 @@ MustReval == par.reval # "none" \/ par.kind = "smaxage"
 \* Squid stores a response only if it stays fresh for more than 60 s after arrival (refreshIsCachable)
 Cachable == TRUE
 Predict ==
-  IF ~Cachable \/ (par.life = 0 /\ par.kind \in {"maxage", "smaxage"}) THEN "contact"   \* max-age=0 replies are always revalidated
+  IF par.life = 0 /\ par.req \in {"maxstale", "maxstale10"} THEN "any"   \* zero lifetime + max-stale: depends on sub-second timing; not predicted
   ELSE IF par.req \in {"nocache", "pragma", "maxage0"} THEN "contact"
   ELSE IF par.req = "maxage30" /\ AgeAt > 30 THEN "contact"
   ELSE IF par.req = "minfresh10" /\ AgeAt + 10 > par.life THEN "contact"
